@@ -462,6 +462,17 @@ func (g *Gen) msgDst() (Bytes, Bytes) {
 	if r.P(0.3) {
 		dlen = 1 + r.N(300)
 	}
+	// now and then something big: a path that only exists for long inputs must
+	// not stay out of reach (the arena holds backings of up to 8192 bytes)
+	if r.P(0.02) {
+		mlen = 1000 + r.N(6000)
+	}
+	if r.P(0.02) {
+		dlen = 512 + r.N(3000)
+	}
+	if mlen+dlen > 7900 {
+		dlen = 7900 - mlen
+	}
 	if r.P(g.badRate * 0.5) {
 		dlen = 0
 	}
@@ -922,8 +933,22 @@ func GenC10(seed, index uint64) *Run {
 	}
 	pE := 0.35 + 0.5*r.F()
 	run.Tasks = [][]Op{g.program(n, pE, 0.08*r.F()*2)}
+	// observation pattern: usually everything after every call; in a quarter of
+	// the runs most calls go unobserved (so that one call consumes exactly what
+	// the previous one left behind), and the observer groups run in another order
+	run.ObsOrder = r.N(3)
+	quiet := 0.0
+	if r.P(0.25) {
+		quiet = []float64{0.5, 0.8, 1.0}[r.N(3)]
+		ops := run.Tasks[0]
+		for i := range ops {
+			if i < len(ops)-1 && r.P(quiet) {
+				ops[i].Q = true
+			}
+		}
+	}
 	g.finishEntropy()
-	run.Config = map[string]any{"alias_rate": g.aliasRate, "bad_rate": g.badRate, "nil_rate": g.nilRate, "p_element": pE}
+	run.Config = map[string]any{"alias_rate": g.aliasRate, "bad_rate": g.badRate, "nil_rate": g.nilRate, "p_element": pE, "quiet_rate": quiet}
 	return run
 }
 
@@ -1200,7 +1225,11 @@ func GenC18(seed, index uint64, build string) *Run {
 		}
 		switch {
 		case r.P(errRate):
-			e := entropy.Event{Off: off, Kind: entropy.ErrData, Err: []string{"eof", "ueof", "injected"}[r.N(3)]}
+			kind := []string{"eof", "ueof", "injected"}[r.N(3)]
+			if r.P(0.3) {
+				kind = entropy.ErrKinds[r.N(len(entropy.ErrKinds))]
+			}
+			e := entropy.Event{Off: off, Kind: entropy.ErrData, Err: kind}
 			if r.P(0.6) {
 				e.N = 1 + r.N(40)
 			}
